@@ -24,7 +24,7 @@ RULE = ("scenario = operation sequence (quick <= 14, thorough <= 200) over {crea
         "non-trivial = a cleanup ran with at least one session within 1 s of the expiry boundary, or a handler overlapped another operation, or the clock went backwards")
 PROBES = ["idle_exactly_max_age", "idle_just_over_max_age", "idle_just_under_max_age", "clock_went_backwards", "listing_mutated",
           "request_with_unknown_session", "slow_handler_overlapped", "cleanup_removed_some_kept_some"]
-TIERS = {"quick": {"runs": 4000, "wall": 40.0}, "thorough": {"runs": 200000, "wall": 540.0}}
+TIERS = {"quick": {"runs": 20000, "wall": 45.0}, "thorough": {"runs": 600000, "wall": 560.0}}
 ASSUMPTIONS = ["the wall clock is the module attribute `time` of chuk_mcp.server.session.memory (read at call time)",
                "uuid4 is seeded: id uniqueness is checked against the library's own id derivation, not against real entropy"]
 STUB = ["wall clock (skewable, jumps), uuid4"]
